@@ -42,6 +42,7 @@ type GroupRouter struct {
 
 	mu     sync.RWMutex
 	routes map[string]string // groupID -> brokerID
+	rev    int64             // etcd revision reflected in routes; the watch resumes at rev+1
 }
 
 // NewGroupRouter creates a router and starts watching etcd for group lease changes.
@@ -117,6 +118,7 @@ func (r *GroupRouter) loadAll(ctx context.Context) error {
 	}
 	r.mu.Lock()
 	r.routes = fresh
+	r.rev = resp.Header.Revision
 	r.mu.Unlock()
 	r.logger.Info("loaded group routes from etcd", "count", len(fresh))
 	return nil
@@ -124,7 +126,12 @@ func (r *GroupRouter) loadAll(ctx context.Context) error {
 
 func (r *GroupRouter) watch(ctx context.Context) {
 	for {
-		watchChan := r.client.Watch(ctx, groupLeasePrefix+"/", clientv3.WithPrefix(), clientv3.WithPrevKV())
+		// Resume right after the revision the table reflects, so that changes made
+		// between the full read and the start of the watch are not missed.
+		r.mu.RLock()
+		startRev := r.rev + 1
+		r.mu.RUnlock()
+		watchChan := r.client.Watch(ctx, groupLeasePrefix+"/", clientv3.WithPrefix(), clientv3.WithPrevKV(), clientv3.WithRev(startRev))
 		for resp := range watchChan {
 			if resp.Err() != nil {
 				r.logger.Warn("group lease watch error", "error", resp.Err())
@@ -132,6 +139,9 @@ func (r *GroupRouter) watch(ctx context.Context) {
 			}
 			r.mu.Lock()
 			for _, ev := range resp.Events {
+				if ev.Kv.ModRevision > r.rev {
+					r.rev = ev.Kv.ModRevision
+				}
 				etcdKey := string(ev.Kv.Key)
 				groupID, ok := groupLeaseKeyToGroupID(etcdKey)
 				if !ok {
